@@ -239,11 +239,20 @@ impl<'tcx> Ex<'tcx> {
         o.put("kind", J::s(if def.is_enum() { "enum" } else if def.is_union() { "union" } else { "struct" }));
         o.put("transparent", J::Bool(def.repr().transparent()));
         o.put("krate", J::s(krate_name(self.tcx, def.did())));
+        let gens = self.tcx.generics_of(def.did());
+        let ps: Vec<J> = gens.own_params.iter().map(|p| J::s(p.name.to_string())).collect();
+        o.put("params", J::Arr(ps));
         let mut vs = Vec::new();
         for v in def.variants().iter() {
             let mut vo = J::obj();
             vo.put("name", J::s(v.name.to_string()));
             vo.put("fields", J::Arr(v.fields.iter().map(|f| J::s(f.name.to_string())).collect()));
+            let mut tys = Vec::new();
+            for f in v.fields.iter() {
+                let ft = self.tcx.type_of(f.did).instantiate_identity().skip_norm_wip();
+                tys.push(J::s(ty_str(ft)));
+            }
+            vo.put("tys", J::Arr(tys));
             vs.push(vo);
         }
         o.put("variants", J::Arr(vs));
